@@ -49,6 +49,7 @@ try:
                 break
 finally:
     sh('git -C /repo checkout -- .')
+    sh('./build.sh', cwd=ROOT)          # the binaries must be those of the unchanged tree again
 res['checks'] = checks
 res['detected_with_input'] = any(l.startswith('VIOLATION') and 'no-failing-input-found' not in l for l in checks[pid]['lines'])
 res['detected'] = checks[pid]['rc'] != 0
